@@ -1,8 +1,18 @@
 /-
   Cedar schema text LEXER and PARSER — transcription of x/exp/schema/internal/parser/{token,parser}.go at token
   level (positions and error texts are not modelled: a parse either yields an AST or fails).
-  Executable model only (`partial def` loops): it is tied to the Go parser by the `schema-parse` correspondence op;
-  no theorem is stated about it.
+
+  Total model (no `partial def`), so that theorems can be stated about it (CedarGoProofs/Properties/C17.lean):
+  * Loops that only look at a fixed number of tokens per iteration (`{ '::' IDENT }`, `{ ',' IDENT }`, the enum value
+    list) are structurally recursive on the token list.
+  * Every other loop and the recursive descent into types carry FUEL: `none` = out of fuel, `some (.error _)` = the
+    parser rejects, so fuel is never confused with rejection.  `C17_schema_parser_total` / `C17_schema_lexer_total`
+    show that the fuel `parseSchema` runs with is never exhausted (Go has no fuel).
+  * No `do`: steps are sequenced with `bindR` / explicit matches (Go's `if err != nil { return err }`).
+  * The lexer: Go's `skipWhitespaceAndComments` loop is merged into the token loop `lexFuel` (one iteration = one
+    white-space character, one comment, or one token); the Go lexer is lazy, but every token up to EOF is consumed by a
+    successful parse, so lexing the whole text first changes neither acceptance nor the AST.
+  Tied to the Go parser by the `schema-parse` and `schema-text-roundtrip` correspondence ops.
 -/
 import CedarGo.Model.Schema.Text
 namespace CedarGo.Schema
@@ -18,27 +28,15 @@ deriving DecidableEq, Repr
 
 /-! ## lexer -/
 
-/-- `skipWhitespaceAndComments`; `none` = unterminated block comment -/
-partial def skipWs : List Char → Option (List Char)
-  | c :: cs =>
-    if c = ' ' ∨ c = '\t' ∨ c = '\r' ∨ c = '\n' then skipWs cs
-    else if c = '/' then
-      match cs with
-      | '/' :: rest => skipWs (rest.dropWhile (· ≠ '\n'))
-      | '*' :: rest =>
-        let rec block : List Char → Option (List Char)
-          | '*' :: '/' :: r => some r
-          | _ :: r => block r
-          | [] => none
-        match block rest with
-        | some r => skipWs r
-        | none => none
-      | _ => some (c :: cs)
-    else some (c :: cs)
-  | [] => some []
+/-- the body of a block comment after `/*`: the rest after the closing `*/`; `none` = unterminated -/
+def skipBlock : List Char → Option (List Char)
+  | [] => none
+  | c :: r =>
+    if c = '*' ∧ r.head? = some '/' then some (r.drop 1)
+    else skipBlock r
 
 /-- `scanString` after the opening quote: the raw body and the rest after the closing quote -/
-partial def scanStr (acc : List Char) : List Char → Option (List Char × List Char)
+def scanStr (acc : List Char) : List Char → Option (List Char × List Char)
   | [] => none
   | c :: cs =>
     if c = '"' then some (acc.reverse, cs)
@@ -49,248 +47,304 @@ partial def scanStr (acc : List Char) : List Char → Option (List Char × List 
       | e :: r => scanStr (e :: c :: acc) r
     else scanStr (c :: acc) cs
 
-/-- the whole token stream (the Go lexer is lazy, but every token up to EOF is consumed by a successful parse) -/
-partial def lexAll (src : List Char) : Except String (List Tok) := do
-  match skipWs src with
-  | none => throw "unterminated block comment"
-  | some [] => pure [.eof]
-  | some (c :: cs) =>
-    if isIdentStart c then
-      let body := cs.takeWhile isIdentContinue
-      let rest := cs.dropWhile isIdentContinue
-      let text := String.ofList (c :: body)
-      let t := if reservedKeywords.contains text then Tok.reserved text else Tok.ident text
-      pure (t :: (← lexAll rest))
+/-- the single-character tokens of `next` (all but `:`) -/
+def punctTok (c : Char) : Option Tok :=
+  if c = '@' then some .at else if c = '{' then some .lbrace else if c = '}' then some .rbrace
+  else if c = '[' then some .lbrack else if c = ']' then some .rbrack
+  else if c = '<' then some .langle else if c = '>' then some .rangle
+  else if c = '(' then some .lparen else if c = ')' then some .rparen
+  else if c = ',' then some .comma else if c = ';' then some .semi
+  else if c = '?' then some .question else if c = '=' then some .equals
+  else none
+
+/-- identifier or reserved keyword (`cedarparser.IsReservedKeyword`) -/
+def identTok (text : String) : Tok := if reservedKeywords.contains text then .reserved text else .ident text
+
+abbrev LexR := Option (Except String (List Tok))
+
+def consTok (t : Tok) : LexR → LexR
+  | none => none
+  | some (.error e) => some (.error e)
+  | some (.ok ts) => some (.ok (t :: ts))
+
+/-- the whole token stream, ending with `eof` -/
+def lexFuel : Nat → List Char → LexR
+  | 0, _ => none
+  | _ + 1, [] => some (.ok [.eof])
+  | n + 1, c :: cs =>
+    if c = ' ' ∨ c = '\t' ∨ c = '\r' ∨ c = '\n' then lexFuel n cs
+    else if c = '/' ∧ cs.head? = some '/' then lexFuel n ((cs.drop 1).dropWhile (· ≠ '\n'))
+    else if c = '/' ∧ cs.head? = some '*' then
+      match skipBlock (cs.drop 1) with
+      | none => some (.error "unterminated block comment")
+      | some r => lexFuel n r
+    else if isIdentStart c then
+      consTok (identTok (String.ofList (c :: cs.takeWhile isIdentContinue))) (lexFuel n (cs.dropWhile isIdentContinue))
     else if c = '"' then
       match scanStr [] cs with
-      | none => throw "unterminated string literal"
+      | none => some (.error "unterminated string literal")
       | some (raw, rest) =>
         match unquoteCedar raw with
-        | none => throw "invalid string escape"
-        | some s => pure (Tok.str (String.ofList s) :: (← lexAll rest))
-    else
-      let single (t : Tok) : Except String (List Tok) := do pure (t :: (← lexAll cs))
-      if c = '@' then single .at else if c = '{' then single .lbrace else if c = '}' then single .rbrace
-      else if c = '[' then single .lbrack else if c = ']' then single .rbrack
-      else if c = '<' then single .langle else if c = '>' then single .rangle
-      else if c = '(' then single .lparen else if c = ')' then single .rparen
-      else if c = ',' then single .comma else if c = ';' then single .semi
-      else if c = '?' then single .question else if c = '=' then single .equals
-      else if c = ':' then
-        match cs with
-        | ':' :: rest => do pure (Tok.dcolon :: (← lexAll rest))
-        | _ => single .colon
-      else throw "unexpected character"
+        | none => some (.error "invalid string escape")
+        | some s => consTok (.str (String.ofList s)) (lexFuel n rest)
+    else if c = ':' then
+      if cs.head? = some ':' then consTok .dcolon (lexFuel n (cs.drop 1)) else consTok .colon (lexFuel n cs)
+    else match punctTok c with
+      | some t => consTok t (lexFuel n cs)
+      | none => some (.error "unexpected character")
+
+/-- every iteration consumes at least one character -/
+def lexAllF (src : List Char) : LexR := lexFuel (src.length + 1) src
+
+def lexAll (src : List Char) : Except String (List Tok) :=
+  match lexAllF src with
+  | some r => r
+  | none => .error "out of fuel"
 
 /-! ## parser -/
 
-abbrev P := StateT (List Tok) (Except String)
+/-- result of a parser step: `none` = out of fuel, else error or (value, remaining tokens) -/
+abbrev PR (α : Type) := Option (Except String (α × List Tok))
+/-- result of a step that needs no fuel -/
+abbrev ER (α : Type) := Except String (α × List Tok)
 
-def peekTok : P Tok := do
-  match ← get with
-  | t :: _ => pure t
-  | [] => pure .eof
+def bindR {α β : Type} (a : PR α) (k : α → List Tok → PR β) : PR β :=
+  match a with
+  | none => none
+  | some (.error e) => some (.error e)
+  | some (.ok (v, ts)) => k v ts
 
-def advanceTok : P Unit := modify List.tail
+def bindE {α β : Type} (a : ER α) (k : α → List Tok → PR β) : PR β :=
+  match a with
+  | .error e => some (.error e)
+  | .ok (v, ts) => k v ts
 
-def expectTok (t : Tok) : P Unit := do
-  if (← peekTok) = t then advanceTok else throw "unexpected token"
+/-- `p.tok` (past the end of the list the lexer keeps returning EOF) -/
+def peekT : List Tok → Tok
+  | [] => .eof
+  | t :: _ => t
 
-def isIdentTok (s : String) : P Bool := do pure ((← peekTok) = .ident s)
+/-- the tokens after `p.readToken()` -/
+def advT : List Tok → List Tok
+  | [] => []
+  | _ :: r => r
+
+/-- `p.expect(tt)` -/
+def expectT (t : Tok) (ts : List Tok) : ER Unit :=
+  if peekT ts = t then .ok ((), advT ts) else .error "unexpected token"
+
+/-- skip an optional token -/
+def optT (t : Tok) (ts : List Tok) : List Tok := if peekT ts = t then advT ts else ts
 
 def reservedTypeNames : List String := ["Bool", "Boolean", "Entity", "Extension", "Long", "Record", "Set", "String"]
 
+/-- annotation key: identifier or any reserved keyword -/
+def annKey : Tok → Option String
+  | .ident s => some s
+  | .reserved s => some s
+  | _ => none
+
+/-- the optional `( STR )` of an annotation -/
+def annValue (ts : List Tok) : ER String :=
+  if peekT ts = .lparen then
+    match peekT (advT ts) with
+    | .str v =>
+      match expectT .rparen (advT (advT ts)) with
+      | .ok (_, r) => .ok (v, r)
+      | .error e => .error e
+    | _ => .error "expected annotation value string"
+  else .ok ("", ts)
+
 /-- `parseAnnotations` -/
-partial def parseAnnotations (acc : Anns := []) : P Anns := do
-  if (← peekTok) = .at then
-    advanceTok
-    let key ← match ← peekTok with
-      | .ident s => pure s
-      | .reserved s => pure s
-      | _ => throw "expected annotation name"
-    advanceTok
-    let value ← if (← peekTok) = .lparen then do
-        advanceTok
-        match ← peekTok with
-        | .str v => do advanceTok; expectTok .rparen; pure v
-        | _ => throw "expected annotation value string"
-      else pure ""
-    if acc.any (·.1 = key) then throw "duplicate annotation"
-    parseAnnotations (acc ++ [(key, value)])
-  else pure acc
+def parseAnnsF : Nat → Anns → List Tok → PR Anns
+  | 0, _, _ => none
+  | n + 1, acc, ts =>
+    if peekT ts ≠ .at then some (.ok (acc, ts))
+    else
+      match annKey (peekT (advT ts)) with
+      | none => some (.error "expected annotation name")
+      | some key =>
+        bindE (annValue (advT (advT ts))) fun value r =>
+          if acc.any (·.1 = key) then some (.error "duplicate annotation")
+          else parseAnnsF n (acc ++ [(key, value)]) r
 
 /-- `parsePathRest`: { '::' IDENT } after the first component -/
-partial def parsePathRest (path : String) : P String := do
-  if (← peekTok) = .dcolon then
-    advanceTok
-    match ← peekTok with
-    | .ident s => do advanceTok; parsePathRest (path ++ "::" ++ s)
-    | _ => throw "expected identifier after '::'"
-  else pure path
+def parsePathRest : String → List Tok → ER String
+  | path, .dcolon :: .ident s :: rest => parsePathRest (path ++ "::" ++ s) rest
+  | _, .dcolon :: _ => .error "expected identifier after '::'"
+  | path, ts => .ok (path, ts)
+
+/-- first component of a path: IDENT, or the reserved `__cedar` -/
+def pathFirst : Tok → Option String
+  | .ident s => some s
+  | .reserved s => if s = "__cedar" then some s else none
+  | _ => none
 
 /-- `parsePath`: IDENT { '::' IDENT }, `__cedar` allowed as first component -/
-def parsePath : P String := do
-  let first ← match ← peekTok with
-    | .ident s => pure s
-    | .reserved "__cedar" => pure "__cedar"
-    | _ => throw "expected identifier"
-  advanceTok
-  parsePathRest first
+def parsePath (ts : List Tok) : ER String :=
+  match pathFirst (peekT ts) with
+  | some first => parsePathRest first (advT ts)
+  | none => .error "expected identifier"
 
-/-- `parseName`: IDENT | STR | `__cedar` -/
-def parseName : P String := do
-  match ← peekTok with
-  | .ident s => do advanceTok; pure s
-  | .reserved "__cedar" => do advanceTok; pure "__cedar"
-  | .str s => do advanceTok; pure s
-  | _ => throw "expected name"
+/-- IDENT | STR | `__cedar` -/
+def nameTok : Tok → Option String
+  | .ident s => some s
+  | .reserved s => if s = "__cedar" then some s else none
+  | .str s => some s
+  | _ => none
 
+/-- `parseName` -/
+def parseName (ts : List Tok) : ER String :=
+  match nameTok (peekT ts) with
+  | some s => .ok (s, advT ts)
+  | none => .error "expected name"
+
+/-- `rec[name] = …` on the attribute list kept in insertion order: a later attribute of the same name replaces the earlier one -/
 def setAttr (as : List (String × Bool × Anns × Ty)) (n : String) (v : Bool × Anns × Ty) : List (String × Bool × Anns × Ty) :=
   if as.any (·.1 = n) then as.map (fun a => if a.1 = n then (n, v) else a) else as ++ [(n, v)]
 
 mutual
 /-- `parseType` -/
-partial def parseType : P Ty := do
-  match ← peekTok with
-  | .lbrace => do pure (.record (← parseRecordType))
-  | .ident "Set" => do
-    advanceTok
-    -- `Set` is no keyword: without '<' it is the first component of a path (an entity type or namespace called Set)
-    if (← peekTok) ≠ .langle then pure (.typeRef (← parsePathRest "Set"))
+def parseTypeF : Nat → List Tok → PR Ty
+  | 0, _ => none
+  | n + 1, ts =>
+    if peekT ts = .lbrace then
+      bindR (recLoopF n [] (advT ts)) fun as r => some (.ok (.record (Attrs.ofList as), r))
+    else if peekT ts = .ident "Set" then
+      -- `Set` is no keyword: without '<' it is the first component of a path (an entity type or namespace called Set)
+      if peekT (advT ts) ≠ .langle then
+        bindE (parsePathRest "Set" (advT ts)) fun p r => some (.ok (.typeRef p, r))
+      else
+        bindR (parseTypeF n (advT (advT ts))) fun e r =>
+          bindE (expectT .rangle r) fun _ r' => some (.ok (.set e, r'))
+    else bindE (parsePath ts) fun p r => some (.ok (.typeRef p, r))
+/-- the attribute loop of `parseRecordType` after the opening brace, up to and including the closing brace -/
+def recLoopF : Nat → List (String × Bool × Anns × Ty) → List Tok → PR (List (String × Bool × Anns × Ty))
+  | 0, _, _ => none
+  | n + 1, acc, ts =>
+    if peekT ts = .rbrace then some (.ok (acc, advT ts))
+    else if peekT ts = .eof then some (.error "expected '}'")
     else
-      expectTok .langle
-      let e ← parseType
-      expectTok .rangle
-      pure (.set e)
-  | _ => do pure (.typeRef (← parsePath))
-/-- `parseRecordType` (a later attribute of the same name replaces the earlier one, as the Go map does) -/
-partial def parseRecordType : P Attrs := do
-  expectTok .lbrace
-  let rec loop (acc : List (String × Bool × Anns × Ty)) : P (List (String × Bool × Anns × Ty)) := do
-    match ← peekTok with
-    | .rbrace => pure acc
-    | .eof => throw "expected '}'"
-    | _ =>
-      let anns ← parseAnnotations
-      let name ← parseName
-      let optional ← if (← peekTok) = .question then do advanceTok; pure true else pure false
-      expectTok .colon
-      let t ← parseType
-      if (← peekTok) = .comma then advanceTok
-      loop (setAttr acc name (optional, anns, t))
-  let as ← loop []
-  advanceTok
-  pure (Attrs.ofList as)
+      bindR (parseAnnsF (n + 1) [] ts) fun anns r1 =>
+      bindE (parseName r1) fun name r2 =>
+      bindE (expectT .colon (optT .question r2)) fun _ r3 =>
+      bindR (parseTypeF n r3) fun t r4 =>
+      recLoopF n (setAttr acc name (decide (peekT r2 = .question), anns, t)) (optT .comma r4)
 end
 
+/-- `parseRecordType` -/
+def parseRecordF (n : Nat) (ts : List Tok) : PR Attrs :=
+  bindE (expectT .lbrace ts) fun _ r => bindR (recLoopF n [] r) fun as r' => some (.ok (Attrs.ofList as, r'))
+
+/-- the loop `for p.tok.Type != tokenRBracket { item; ',' | ']' }` of `parseEntityTypes` / `parseActionParents`, up to and
+    including the closing bracket -/
+def bracketLoopF {α : Type} (item : List Tok → ER α) : Nat → List α → List Tok → PR (List α)
+  | 0, _, _ => none
+  | n + 1, acc, ts =>
+    if peekT ts = .rbrack then some (.ok (acc, advT ts))
+    else
+      bindE (item ts) fun p r =>
+        if peekT r = .comma then bracketLoopF item n (acc ++ [p]) (advT r)
+        else if peekT r ≠ .rbrack then some (.error "expected ',' or ']'")
+        else bracketLoopF item n (acc ++ [p]) r
+
+/-- item | '[' [ item { ',' item } ] ']' -/
+def bracketOrOneF {α : Type} (item : List Tok → ER α) (n : Nat) (ts : List Tok) : PR (List α) :=
+  if peekT ts = .lbrack then bracketLoopF item n [] (advT ts)
+  else bindE (item ts) fun p r => some (.ok ([p], r))
+
 /-- `parseEntityTypes`: Path | '[' [ Path { ',' Path } ] ']' -/
-partial def parseEntityTypes : P (List String) := do
-  if (← peekTok) = .lbrack then
-    advanceTok
-    let rec loop (acc : List String) : P (List String) := do
-      if (← peekTok) = .rbrack then pure acc
-      else
-        let p ← parsePath
-        if (← peekTok) = .comma then advanceTok
-        else if (← peekTok) ≠ .rbrack then throw "expected ',' or ']'"
-        loop (acc ++ [p])
-    let r ← loop []
-    advanceTok
-    pure r
-  else do pure [← parsePath]
+def parseEntityTypesF (n : Nat) (ts : List Tok) : PR (List String) := bracketOrOneF parsePath n ts
+
+/-- the loop of `parsePathForRef` after the first component -/
+def qualMore : String → List Tok → ER (String × String)
+  | path, .dcolon :: .str s :: rest => .ok ((path, s), rest)
+  | path, .dcolon :: .ident s :: rest => qualMore (path ++ "::" ++ s) rest
+  | _, .dcolon :: _ => .error "expected identifier or string after '::'"
+  | path, ts => .ok (("", path), ts)
 
 /-- `parseQualName`: Name | Path '::' STR -/
-partial def parseQualName : P (String × String) := do
-  match ← peekTok with
-  | .str s => do advanceTok; pure ("", s)
-  | _ =>
-    let first ← match ← peekTok with
-      | .ident s => pure s
-      | .reserved "__cedar" => pure "__cedar"
-      | _ => throw "expected identifier"
-    advanceTok
-    let rec more (path : String) : P (String × String) := do
-      if (← peekTok) = .dcolon then
-        advanceTok
-        match ← peekTok with
-        | .str s => do advanceTok; pure (path, s)
-        | .ident s => do advanceTok; more (path ++ "::" ++ s)
-        | _ => throw "expected identifier or string after '::'"
-      else pure ("", path)
-    more first
+def parseQualName (ts : List Tok) : ER (String × String) :=
+  match peekT ts with
+  | .str s => .ok (("", s), advT ts)
+  | t =>
+    match pathFirst t with
+    | some first => qualMore first (advT ts)
+    | none => .error "expected identifier"
 
-partial def parseActionParents : P (List (String × String)) := do
-  if (← peekTok) = .lbrack then
-    advanceTok
-    let rec loop (acc : List (String × String)) : P (List (String × String)) := do
-      if (← peekTok) = .rbrack then pure acc
+/-- `parseActionParents` -/
+def parseActionParentsF (n : Nat) (ts : List Tok) : PR (List (String × String)) := bracketOrOneF parseQualName n ts
+
+/-- the loop of `parseAppliesTo` (stops AT the closing brace) -/
+def appliesLoopF : Nat → AppliesTo → Bool → Bool → Bool → List Tok → PR (AppliesTo × Bool × Bool)
+  | 0, _, _, _, _, _ => none
+  | n + 1, ap, hasP, hasR, hasC, ts =>
+    if peekT ts = .rbrace then some (.ok ((ap, hasP, hasR), ts))
+    else if peekT ts = .eof then some (.error "expected '}'")
+    else if peekT ts = .ident "principal" then
+      if hasP then some (.error "duplicate principal")
       else
-        let p ← parseQualName
-        if (← peekTok) = .comma then advanceTok
-        else if (← peekTok) ≠ .rbrack then throw "expected ',' or ']'"
-        loop (acc ++ [p])
-    let r ← loop []
-    advanceTok
-    pure r
-  else do pure [← parseQualName]
+        bindE (expectT .colon (advT ts)) fun _ r =>
+        bindR (parseEntityTypesF n r) fun refs r' =>
+          if refs.isEmpty then some (.error "principal types must not be empty")
+          else appliesLoopF n { ap with principals := refs } true hasR hasC (optT .comma r')
+    else if peekT ts = .ident "resource" then
+      if hasR then some (.error "duplicate resource")
+      else
+        bindE (expectT .colon (advT ts)) fun _ r =>
+        bindR (parseEntityTypesF n r) fun refs r' =>
+          if refs.isEmpty then some (.error "resource types must not be empty")
+          else appliesLoopF n { ap with resources := refs } hasP true hasC (optT .comma r')
+    else if peekT ts = .ident "context" then
+      if hasC then some (.error "duplicate context")
+      else
+        bindE (expectT .colon (advT ts)) fun _ r =>
+        bindR (parseTypeF n r) fun t r' =>
+          appliesLoopF n { ap with context := some t } hasP hasR true (optT .comma r')
+    else some (.error "expected 'principal', 'resource', or 'context'")
 
 /-- `parseAppliesTo` -/
-partial def parseAppliesTo : P AppliesTo := do
-  expectTok .lbrace
-  let rec loop (ap : AppliesTo) (hasP hasR hasC : Bool) : P (AppliesTo × Bool × Bool) := do
-    match ← peekTok with
-    | .rbrace => pure (ap, hasP, hasR)
-    | .eof => throw "expected '}'"
-    | .ident "principal" =>
-      if hasP then throw "duplicate principal"
-      advanceTok; expectTok .colon
-      let refs ← parseEntityTypes
-      if refs.isEmpty then throw "principal types must not be empty"
-      if (← peekTok) = .comma then advanceTok
-      loop { ap with principals := refs } true hasR hasC
-    | .ident "resource" =>
-      if hasR then throw "duplicate resource"
-      advanceTok; expectTok .colon
-      let refs ← parseEntityTypes
-      if refs.isEmpty then throw "resource types must not be empty"
-      if (← peekTok) = .comma then advanceTok
-      loop { ap with resources := refs } hasP true hasC
-    | .ident "context" =>
-      if hasC then throw "duplicate context"
-      advanceTok; expectTok .colon
-      let t ← parseType
-      if (← peekTok) = .comma then advanceTok
-      loop { ap with context := some t } hasP hasR true
-    | _ => throw "expected 'principal', 'resource', or 'context'"
-  let (ap, hasP, hasR) ← loop {} false false false
-  if !hasP then throw "appliesTo must include a principal declaration"
-  if !hasR then throw "appliesTo must include a resource declaration"
-  advanceTok
-  pure ap
+def parseAppliesToF (n : Nat) (ts : List Tok) : PR AppliesTo :=
+  bindE (expectT .lbrace ts) fun _ r =>
+  bindR (appliesLoopF n {} false false false r) fun res r' =>
+    if !res.2.1 then some (.error "appliesTo must include a principal declaration")
+    else if !res.2.2 then some (.error "appliesTo must include a resource declaration")
+    else some (.ok (res.1, advT r'))
 
-partial def parseIdents : P (List String) := do
-  let first ← match ← peekTok with
-    | .ident s => pure s
-    | _ => throw "expected identifier"
-  advanceTok
-  let rec more (acc : List String) : P (List String) := do
-    if (← peekTok) = .comma then
-      advanceTok
-      match ← peekTok with
-      | .ident s => do advanceTok; more (acc ++ [s])
-      | _ => throw "expected identifier after ','"
-    else pure acc
-  more [first]
+/-- { ',' IDENT } -/
+def identsMore : List String → List Tok → ER (List String)
+  | acc, .comma :: .ident s :: rest => identsMore (acc ++ [s]) rest
+  | _, .comma :: _ => .error "expected identifier after ','"
+  | acc, ts => .ok (acc, ts)
 
-partial def parseNames : P (List String) := do
-  let first ← parseName
-  let rec more (acc : List String) : P (List String) := do
-    if (← peekTok) = .comma then
-      advanceTok
-      let n ← parseName
-      more (acc ++ [n])
-    else pure acc
-  more [first]
+/-- `parseIdents`: IDENT { ',' IDENT } -/
+def parseIdents (ts : List Tok) : ER (List String) :=
+  match peekT ts with
+  | .ident s => identsMore [s] (advT ts)
+  | _ => .error "expected identifier"
+
+/-- { ',' Name } -/
+def namesMore : List String → List Tok → ER (List String)
+  | acc, .comma :: t :: rest =>
+    match nameTok t with
+    | some s => namesMore (acc ++ [s]) rest
+    | none => .error "expected name"
+  | _, [.comma] => .error "expected name"
+  | acc, ts => .ok (acc, ts)
+
+/-- `parseNames`: Name { ',' Name } -/
+def parseNames (ts : List Tok) : ER (List String) :=
+  match parseName ts with
+  | .ok (first, r) => namesMore [first] r
+  | .error e => .error e
+
+/-- the value loop of `parseEnumEntity` after '[', up to and including ']' -/
+def enumLoop : List String → List Tok → ER (List String)
+  | acc, .rbrack :: rest => .ok (acc, rest)
+  | acc, .str v :: .comma :: rest => enumLoop (acc ++ [v]) rest
+  | acc, .str v :: .rbrack :: rest => .ok (acc ++ [v], rest)
+  | _, .str _ :: _ => .error "expected ',' or ']' in enum"
+  | _, _ => .error "expected string literal in enum"
 
 def addEntities (d : Namespace) (names : List String) (e : Entity) : Except String Namespace :=
   names.foldlM (fun d n =>
@@ -307,90 +361,140 @@ def addActions (d : Namespace) (names : List String) (a : Action) : Except Strin
     if d.actions.any (·.1 = n) then .error "action declared twice"
     else .ok { d with actions := d.actions ++ [(n, a)] }) d
 
-/-- `parseDecl` (entity / action / type) into the accumulated declarations of the current namespace -/
-partial def parseDecl (anns : Anns) (d : Namespace) : P Namespace := do
-  match ← peekTok with
-  | .ident "entity" =>
-    advanceTok
-    let names ← parseIdents
-    if (← isIdentTok "enum") then
-      advanceTok
-      expectTok .lbrack
-      let rec loop (acc : List String) : P (List String) := do
-        match ← peekTok with
-        | .rbrack => pure acc
-        | .str v =>
-          advanceTok
-          if (← peekTok) = .comma then advanceTok
-          else if (← peekTok) ≠ .rbrack then throw "expected ',' or ']' in enum"
-          loop (acc ++ [v])
-        | _ => throw "expected string literal in enum"
-      let values ← loop []
-      if values.isEmpty then throw "an enum entity type needs at least one value"
-      advanceTok
-      expectTok .semi
-      StateT.lift (addEnums d names { anns := anns, values := values })
+def liftNs (x : Except String Namespace) (r : List Tok) : PR Namespace :=
+  match x with
+  | .ok d => some (.ok (d, r))
+  | .error e => some (.error e)
+
+/-- `parseEnumEntity` after the keyword `enum` -/
+def parseEnumRest (anns : Anns) (names : List String) (d : Namespace) (ts : List Tok) : PR Namespace :=
+  bindE (expectT .lbrack ts) fun _ r =>
+  bindE (enumLoop [] r) fun values r' =>
+    -- (Go checks the emptiness before consuming ']'; both orders reject)
+    if values.isEmpty then some (.error "an enum entity type needs at least one value")
+    else bindE (expectT .semi r') fun _ r'' => liftNs (addEnums d names { anns := anns, values := values }) r''
+
+/-- the optional `in` clause of an entity declaration -/
+def parseEntityIn (n : Nat) (ts : List Tok) : PR (List String) :=
+  if peekT ts = .reserved "in" then parseEntityTypesF n (advT ts) else some (.ok ([], ts))
+
+/-- the optional shape of an entity declaration, with optional '=' -/
+def parseEntityShape (n : Nat) (ts : List Tok) : PR (Option Attrs) :=
+  if peekT ts = .equals then bindR (parseRecordF n (advT ts)) fun as r => some (.ok (some as, r))
+  else if peekT ts = .lbrace then bindR (parseRecordF n ts) fun as r => some (.ok (some as, r))
+  else some (.ok (none, ts))
+
+/-- the optional `tags` clause -/
+def parseEntityTags (n : Nat) (ts : List Tok) : PR (Option Ty) :=
+  if peekT ts = .ident "tags" then bindR (parseTypeF n (advT ts)) fun t r => some (.ok (some t, r))
+  else some (.ok (none, ts))
+
+/-- `parseEntity` after the keyword -/
+def parseEntityF (n : Nat) (anns : Anns) (d : Namespace) (ts : List Tok) : PR Namespace :=
+  bindE (parseIdents ts) fun names r =>
+    if peekT r = .ident "enum" then parseEnumRest anns names d (advT r)
     else
-      let memberOf ← if (← peekTok) = .reserved "in" then do advanceTok; parseEntityTypes else pure []
-      let shape ← match ← peekTok with
-        | .equals => do advanceTok; pure (some (← parseRecordType))
-        | .lbrace => do pure (some (← parseRecordType))
-        | _ => pure none
-      let tags ← if (← isIdentTok "tags") then do advanceTok; pure (some (← parseType)) else pure none
-      expectTok .semi
-      StateT.lift (addEntities d names { anns := anns, parents := memberOf, shape := shape, tags := tags })
-  | .ident "action" =>
-    advanceTok
-    let names ← parseNames
-    let memberOf ← if (← peekTok) = .reserved "in" then do advanceTok; parseActionParents else pure []
-    let applies ← if (← isIdentTok "appliesTo") then do advanceTok; pure (some (← parseAppliesTo)) else pure none
-    if (← isIdentTok "attributes") then
-      advanceTok; expectTok .lbrace; expectTok .rbrace
-    expectTok .semi
-    StateT.lift (addActions d names { anns := anns, parents := memberOf, appliesTo := applies })
-  | .ident "type" =>
-    advanceTok
-    let name ← match ← peekTok with
-      | .ident s => pure s
-      | _ => throw "expected type name"
-    if reservedTypeNames.contains name then throw "reserved type name"
-    advanceTok
-    expectTok .equals
-    let t ← parseType
-    expectTok .semi
-    if d.commonTypes.any (·.1 = name) then throw "type declared twice"
-    pure { d with commonTypes := d.commonTypes ++ [(name, { anns := anns, ty := t })] }
-  | _ => throw "expected declaration (entity, action, or type)"
+      bindR (parseEntityIn n r) fun memberOf r1 =>
+      bindR (parseEntityShape n r1) fun shape r2 =>
+      bindR (parseEntityTags n r2) fun tags r3 =>
+      bindE (expectT .semi r3) fun _ r4 =>
+        liftNs (addEntities d names { anns := anns, parents := memberOf, shape := shape, tags := tags }) r4
+
+def parseActionIn (n : Nat) (ts : List Tok) : PR (List (String × String)) :=
+  if peekT ts = .reserved "in" then parseActionParentsF n (advT ts) else some (.ok ([], ts))
+
+def parseActionApplies (n : Nat) (ts : List Tok) : PR (Option AppliesTo) :=
+  if peekT ts = .ident "appliesTo" then bindR (parseAppliesToF n (advT ts)) fun ap r => some (.ok (some ap, r))
+  else some (.ok (none, ts))
+
+/-- the deprecated `attributes {}` -/
+def parseActionAttributes (ts : List Tok) : ER Unit :=
+  if peekT ts = .ident "attributes" then
+    match expectT .lbrace (advT ts) with
+    | .ok (_, r) => expectT .rbrace r
+    | .error e => .error e
+  else .ok ((), ts)
+
+/-- `parseAction` after the keyword -/
+def parseActionF (n : Nat) (anns : Anns) (d : Namespace) (ts : List Tok) : PR Namespace :=
+  bindE (parseNames ts) fun names r =>
+  bindR (parseActionIn n r) fun memberOf r1 =>
+  bindR (parseActionApplies n r1) fun applies r2 =>
+  bindE (parseActionAttributes r2) fun _ r3 =>
+  bindE (expectT .semi r3) fun _ r4 =>
+    liftNs (addActions d names { anns := anns, parents := memberOf, appliesTo := applies }) r4
+
+/-- `parseTypeDecl` after the keyword -/
+def parseTypeDeclF (n : Nat) (anns : Anns) (d : Namespace) (ts : List Tok) : PR Namespace :=
+  match peekT ts with
+  | .ident name =>
+    if reservedTypeNames.contains name then some (.error "reserved type name")
+    else
+      bindE (expectT .equals (advT ts)) fun _ r =>
+      bindR (parseTypeF n r) fun t r1 =>
+      bindE (expectT .semi r1) fun _ r2 =>
+        if d.commonTypes.any (·.1 = name) then some (.error "type declared twice")
+        else some (.ok ({ d with commonTypes := d.commonTypes ++ [(name, { anns := anns, ty := t })] }, r2))
+  | _ => some (.error "expected type name")
+
+/-- `parseDecl` (entity / action / type) into the accumulated declarations of the current namespace -/
+def parseDeclF (n : Nat) (anns : Anns) (d : Namespace) (ts : List Tok) : PR Namespace :=
+  if peekT ts = .ident "entity" then parseEntityF n anns d (advT ts)
+  else if peekT ts = .ident "action" then parseActionF n anns d (advT ts)
+  else if peekT ts = .ident "type" then parseTypeDeclF n anns d (advT ts)
+  else some (.error "expected declaration (entity, action, or type)")
+
+/-- the declaration loop of `parseNamespace` after '{', up to and including '}' -/
+def nsLoopF : Nat → Namespace → List Tok → PR Namespace
+  | 0, _, _ => none
+  | n + 1, d, ts =>
+    if peekT ts = .rbrace then some (.ok (d, advT ts))
+    else if peekT ts = .eof then some (.error "expected '}' to close namespace")
+    else
+      bindR (parseAnnsF (n + 1) [] ts) fun inner r =>
+      bindR (parseDeclF n inner d r) fun d' r' => nsLoopF n d' r'
+
+/-- `strings.Split(s, "::")` on characters: leftmost, non-overlapping separators (`cur` = the component being read, reversed) -/
+def splitPathAux : List Char → List Char → List (List Char)
+  | cur, [] => [cur.reverse]
+  | cur, [c] => [(c :: cur).reverse]
+  | cur, c :: d :: rest =>
+    if c = ':' ∧ d = ':' then cur.reverse :: splitPathAux [] rest
+    else splitPathAux (c :: cur) (d :: rest)
+
+/-- `strings.Split(path, "::")` contains `__cedar` -/
+def pathHasCedar (path : String) : Bool := (splitPathAux [] path.toList).contains "__cedar".toList
 
 /-- `parseSchema` -/
-partial def parseSchemaToks (s : Schema) : P Schema := do
-  if (← peekTok) = .eof then pure s
-  else
-    let anns ← parseAnnotations
-    if (← isIdentTok "namespace") then
-      advanceTok
-      let path ← parsePath
-      if (path.splitOn "::").contains "__cedar" then throw "the name contains \"__cedar\", which is reserved"
-      expectTok .lbrace
-      let rec loop (d : Namespace) : P Namespace := do
-        match ← peekTok with
-        | .rbrace => pure d
-        | .eof => throw "expected '}' to close namespace"
-        | _ =>
-          let inner ← parseAnnotations
-          loop (← parseDecl inner d)
-      let d ← loop { anns := anns }
-      advanceTok
-      if s.namespaces.any (·.1 = path) then throw "namespace declared twice"
-      parseSchemaToks { s with namespaces := s.namespaces ++ [(path, d)] }
+def parseSchemaF : Nat → Schema → List Tok → PR Schema
+  | 0, _, _ => none
+  | n + 1, s, ts =>
+    if peekT ts = .eof then some (.ok (s, ts))
     else
-      let d ← parseDecl anns s.bare
-      parseSchemaToks { s with bare := d }
+      bindR (parseAnnsF (n + 1) [] ts) fun anns r =>
+        if peekT r = .ident "namespace" then
+          bindE (parsePath (advT r)) fun path r1 =>
+            if pathHasCedar path then some (.error "the name contains \"__cedar\", which is reserved")
+            else
+              bindE (expectT .lbrace r1) fun _ r2 =>
+              bindR (nsLoopF n { anns := anns } r2) fun d r3 =>
+                if s.namespaces.any (·.1 = path) then some (.error "namespace declared twice")
+                else parseSchemaF n { s with namespaces := s.namespaces ++ [(path, d)] } r3
+        else
+          bindR (parseDeclF n anns s.bare r) fun d r' => parseSchemaF n { s with bare := d } r'
+
+/-- the parser on a token list, with the fuel `ParseSchema` needs at most (every iteration and every nested call
+    consumes a token) -/
+def parseToks (toks : List Tok) : PR Schema := parseSchemaF (toks.length + 1) {} toks
 
 /-- `ParseSchema` -/
-def parseSchema (src : String) : Except String Schema := do
-  let toks ← lexAll src.toList
-  let (s, _) ← (parseSchemaToks {}).run toks
-  pure s
+def parseSchema (src : String) : Except String Schema :=
+  match lexAll src.toList with
+  | .error e => .error e
+  | .ok toks =>
+    match parseToks toks with
+    | some (.ok (s, _)) => .ok s
+    | some (.error e) => .error e
+    | none => .error "out of fuel"
 
 end CedarGo.Schema
